@@ -567,13 +567,22 @@ func (c *checker) expr1(e *Expr) *Type {
 			c.fail("unknown record %s", e.Name)
 		}
 		if len(e.Args) != len(d.Fields) || len(e.Fields) != len(d.Fields) {
-			c.fail("record %s: all fields, in declaration order", e.Name)
+			c.fail("record %s: all fields, each once", e.Name)
 		}
-		for i, f := range d.Fields {
-			if e.Fields[i] != f.Name {
-				c.fail("record %s: field %s out of order", e.Name, e.Fields[i])
+		// the fields may be written in any order; they are evaluated in the order written
+		seen := map[string]bool{}
+		for i, fn := range e.Fields {
+			var ft *Type
+			for _, f := range d.Fields {
+				if f.Name == fn {
+					ft = f.T
+				}
 			}
-			c.want(e.Args[i], f.T, "field "+f.Name)
+			if ft == nil || seen[fn] {
+				c.fail("record %s: field %s unknown or repeated", e.Name, fn)
+			}
+			seen[fn] = true
+			c.want(e.Args[i], ft, "field "+fn)
 		}
 		return tRec(e.Name)
 	case EField:
